@@ -85,6 +85,8 @@ def gen_vector(spec):
     return [Fraction(r.choice([-1, 1]) * r.randrange(1, mag + 1), den) for _ in range(n)]
   if kind == 'ramp':
     return [Fraction(i % (2 * mag + 1) - mag, den) for i in range(n)]
+  if kind == 'range':
+    return [Fraction(r.randrange(spec['lo'], spec['hi'] + 1)) for _ in range(n)]
   if kind == 'dominant':
     # non-negative, first entry >= sum of the others: every entry of H x is >= 0 (unsigned dtypes)
     rest = [r.randrange(0, mag + 1) for _ in range(max(n - 1, 0))]
@@ -93,6 +95,26 @@ def gen_vector(spec):
     # integers of magnitude ~mag (top bits set), so that partial sums leave the float32-exact range
     return [Fraction(r.choice([-1, 1]) * r.randrange(mag // 2, mag + 1)) for _ in range(n)]
   return [Fraction(r.randrange(-mag, mag + 1), den) for _ in range(n)]
+
+
+# narrow / unsigned / boolean array dtypes (quantisation levels, masks): full-range entries, so that any
+# arithmetic carried out in the input dtype instead of on the values as numbers wraps or saturates
+NARROW_RANGES = {'bool': (0, 1), 'uint8': (0, 255), 'uint16': (0, 65535), 'uint32': (0, 2 ** 20), 'int8': (-128, 127),
+                 'int16': (-32768, 32767)}
+
+
+def narrow_xspec(rng, dt, n):
+  lo, hi = NARROW_RANGES[dt]
+  return {'seed': rng.randrange(2 ** 31), 'n': n, 'kind': 'range', 'lo': lo, 'hi': hi}
+
+
+def typed_values(xq, dtype, shape):
+  """(numpy array of the dtype, its entries as exact numbers)"""
+  if dtype == 'float32':
+    a = np.array([float(v) for v in xq], dtype=np.float32).reshape(shape)
+    return a, list(xq)
+  a = np.array([int(v) for v in xq]).astype(dtype).reshape(shape)
+  return a, [Fraction(int(v)) for v in a.reshape(-1)]
 
 
 def exc_class(e):
@@ -209,7 +231,9 @@ def spec_shrinks(spec):
       if shape_size(sh) < shape_size(shape) or (shape_size(sh) == shape_size(shape) and len(sh) < len(shape)):
         x = spec[2]
         x2 = {**x, 'n': shape_size(sh)} if isinstance(x, dict) else list(x)[:shape_size(sh)]
-        yield ['leaf', sh, x2]
+        yield ['leaf', sh, x2] + list(spec[3:])
+    if len(spec) > 3 and spec[3] != 'float32' and isinstance(spec[2], dict) and spec[2].get('kind') != 'range':
+      yield spec[:3]
   for i, c in enumerate(kids):
     for c2 in spec_shrinks(c):
       yield spec_with_children(spec, kids[:i] + [c2] + kids[i + 1:])
@@ -230,10 +254,16 @@ def legacy_tree_spec(case):
   return ['dict', [['a', ['dict', [['b', leaves[0]], ['w', leaves[1]]]]], ['z', ['list', leaves[2:]]]]]
 
 
-def gen_leaf(rng, shape=None):
+def gen_leaf(rng, shape=None, dtype=None):
+  """["leaf", shape, xspec] (float32) or ["leaf", shape, xspec, dtype]"""
   shape = list(rng.choice(LEAF_SHAPES)) if shape is None else list(shape)
-  return ['leaf', shape, {'seed': rng.randrange(2 ** 31), 'n': shape_size(shape), 'mag': 8,
+  if dtype is None and shape is not None and rng.random() < 0.2:
+    dtype = rng.choice(sorted(NARROW_RANGES) + ['int32'])
+  if dtype in NARROW_RANGES:
+    return ['leaf', shape, narrow_xspec(rng, dtype, shape_size(shape)), dtype]
+  leaf = ['leaf', shape, {'seed': rng.randrange(2 ** 31), 'n': shape_size(shape), 'mag': 8,
                           'kind': rng.choice(['uniform', 'uniform', 'nonzero'])}]
+  return leaf + [dtype] if dtype else leaf
 
 
 def gen_spec(rng, depth, budget):
@@ -260,7 +290,7 @@ def gen_spec(rng, depth, budget):
 
 def fixed_tree_specs(rng):
   """the container shapes real parameter trees have (haiku dicts, stax tuples, namedtuple layer records)"""
-  L = lambda sh=None: gen_leaf(rng, sh)
+  L = lambda sh=None: gen_leaf(rng, sh, 'float32')
   return [
       ['dict', [['p0', L([2, 3])], ['p1', L([2, 2])]]],                                   # flat dict
       ['dict', [['a', ['dict', [['b', L([])], ['w', L([5])]]]], ['z', ['list', [L([3, 3])]]]]],
@@ -314,6 +344,15 @@ class C18(core.Property):
     # 0-d / tiny rotations and trees first: cheap, and they hit the scalar-parameter path
     for shape in ([], [1], [5], [3, 4], [2, 3, 5], [129], [64], [1, 1], [2], [7, 1, 3]):
       yield self._rot_case(rng, shape)
+    # every narrow / unsigned / boolean dtype on a padded and an unpadded size
+    for dt in sorted(NARROW_RANGES):
+      for shape in ([5], [4, 4]) + (([], [3, 11], [129]) if tier == 'thorough' else ()):
+        yield {'kind': 'rot', 'shape': list(shape), 'key': rng.randrange(2 ** 31), 'key2': rng.randrange(2 ** 31),
+               'dtype': dt, 'x': narrow_xspec(rng, dt, shape_size(shape))}
+    yield {'kind': 'tree', 'key': rng.randrange(2 ** 31), 'spec': ['dict', [
+        ['levels', ['tuple', [gen_leaf(rng, [3, 3], 'uint8'), gen_leaf(rng, [6], 'int8')]]],
+        ['mask', gen_leaf(rng, [5], 'bool')], ['w', gen_leaf(rng, [2, 3])],
+        ['q', ['nt', 'Dense', [gen_leaf(rng, [7], 'int16'), gen_leaf(rng, [], 'uint16')]]]]]}
     for spec in fixed_tree_specs(rng):
       yield {'kind': 'tree', 'spec': spec, 'key': rng.randrange(2 ** 31)}
     # non-default JAX configurations run in child processes, started now and collected after the grid
@@ -429,9 +468,13 @@ class C18(core.Property):
   def _rot_case(self, rng, shape):
     size = shape_size(shape)
     kind = 'nonzero' if size >= 64 or rng.random() < 0.3 else 'uniform'
+    u = rng.random()
+    dtype = 'int32' if u < 0.1 else ('float32' if u < 0.75 else rng.choice(sorted(NARROW_RANGES)))
+    x = {'seed': rng.randrange(2 ** 31), 'n': size, 'mag': 8, 'den': rng.choice([1, 1, 4]) , 'kind': kind}
+    if dtype in NARROW_RANGES:
+      x = narrow_xspec(rng, dtype, size)
     return {'kind': 'rot', 'shape': list(shape), 'key': rng.randrange(2 ** 31), 'key2': rng.randrange(2 ** 31),
-            'dtype': 'int32' if rng.random() < 0.15 else 'float32',
-            'x': {'seed': rng.randrange(2 ** 31), 'n': size, 'mag': 8, 'den': rng.choice([1, 1, 4]) , 'kind': kind}}
+            'dtype': dtype, 'x': x}
 
   def shrink(self, case):
     kind = case['kind']
@@ -735,17 +778,15 @@ class C18(core.Property):
     if len(xq) != size:
       xq = (xq + [Fraction(0)] * size)[:size]
     dtype = case.get('dtype', 'float32')
-    if dtype == 'int32':
-      xq = [Fraction(int(v)) for v in xq]
-    xn = np.array([float(v) for v in xq], dtype=dtype).reshape(shape)
+    xn, xq = typed_values(xq, dtype, shape)   # xq = the entries as numbers (what must be preserved / restored)
     x = jnp.asarray(xn)
     key = jax.random.PRNGKey(case['key'])
     problems, corr, fkey = [], [], None
     detail = {}
     y = sh = z = None
     try:
-      y, sh = wh.structured_rotation(x, key)
-      y = np.asarray(y)
+      yj, sh = wh.structured_rotation(x, key)
+      y = np.array(yj, copy=True)     # snapshot; `yj` itself is what the caller keeps using below
     except Exception as e:   # pylint: disable=broad-except
       err = e
       if size >= 1:
@@ -781,11 +822,27 @@ class C18(core.Property):
       fkey = fkey or 'C18/rot/shape-record'
     # ---- inverse
     try:
-      z = np.asarray(wh.inverse_structured_rotation(jnp.asarray(y), key, sh))
+      z = np.array(wh.inverse_structured_rotation(yj, key, sh), copy=True)
     except Exception as e:   # pylint: disable=broad-except
       problems.append(f'inverse_structured_rotation of the rotated shape-{tuple(shape)} array raised '
                       f'{type(e).__name__}: {str(e)[:120]!r}')
       fkey = fkey or ('C18/rot/inverse-raises-' + type(e).__name__ + ('-0d' if not shape else ''))
+    # the rotated array is a value: it must still be there after decoding, and decode again to the same result
+    if z is not None:
+      try:
+        y_again = np.array(yj, copy=True)
+        if not np.array_equal(y_again, y):
+          problems.append(f'the rotated shape-{tuple(shape)} array changed while it was decoded')
+          fkey = fkey or 'C18/rot/rotated-input-changed'
+        z2 = np.array(wh.inverse_structured_rotation(yj, key, sh), copy=True)
+        if z2.shape != z.shape or not np.array_equal(z2, z):
+          problems.append(f'decoding the same rotated shape-{tuple(shape)} array twice gives different results')
+          fkey = fkey or 'C18/rot/second-decode-differs'
+      except Exception as e:   # pylint: disable=broad-except
+        problems.append(f'after one inverse_structured_rotation the rotated shape-{tuple(shape)} array cannot be used again '
+                        f'(read / second decode with the same key): {type(e).__name__}: {str(e)[:100]!r}')
+        fkey = fkey or 'C18/rot/rotated-input-unusable-after-decode'
+      ctx.count('decode_twice_checks')
     if z is not None:
       if z.shape != tuple(shape):
         problems.append(f'restored array has shape {z.shape}, original {tuple(shape)}')
@@ -1034,9 +1091,10 @@ class C18(core.Property):
       xq = gen_vector({**x, 'n': size}) if isinstance(x, dict) else gen_vector(x)
       return (xq + [Fraction(0)] * size)[:size]
 
-    qs = [leaf_q(l) for l in leaf_specs]
-    tree = spec_build(spec, lambda l: jnp.asarray(
-        np.array([float(v) for v in qs[ids[id(l)]]], dtype=np.float32).reshape(l[1])))
+    typed = [typed_values(leaf_q(l), l[3] if len(l) > 3 else 'float32', l[1]) for l in leaf_specs]
+    qs = [t[1] for t in typed]
+    tree = spec_build(spec, lambda l: jnp.asarray(typed[ids[id(l)]][0]))
+    dtypes = sorted({l[3] if len(l) > 3 else 'float32' for l in leaf_specs})
     # flatten order of the leaves as JAX sees them (dict keys sorted, namedtuple fields in order, None = no leaf)
     order = tu.tree_leaves(spec_build(spec, lambda l: ids[id(l)]))
     if sorted(order) != list(range(len(leaf_specs))):
@@ -1050,7 +1108,7 @@ class C18(core.Property):
     kinds = sorted(spec_kinds(spec))
     problems, corr, fkey = [], [], None
     tags = tuple([f'tree:leaves={min(len(xqs), 6)}', f'tree:has0d={any(not sh for sh in shapes)}'] +
-                 [f'tree:has={k}' for k in kinds])
+                 [f'tree:has={k}' for k in kinds] + [f'tree:dtype={d}' for d in dtypes])
     what = f'tree {tdef} (leaf shapes {shapes})'
     try:
       rot, shp = wh.structured_rotation_pytree(tree, key)
@@ -1065,7 +1123,9 @@ class C18(core.Property):
         problems.append(f'rotated tree has structure {rdef}, the parameters have {tdef}')
         fkey = 'C18/tree/structure'
       else:
-        rl = tu.tree_leaves(rot)
+        rl_live = tu.tree_leaves(rot)
+        # snapshots (copies); the live leaves stay with `rot`, which is used again after decoding
+        rl = [np.array(l, copy=True) if hasattr(l, 'shape') else l for l in rl_live]
     except Exception as e:   # pylint: disable=broad-except
       problems.append(f'rotated tree cannot be flattened: {type(e).__name__}')
       fkey = 'C18/tree/structure'
@@ -1089,6 +1149,23 @@ class C18(core.Property):
     except Exception as e:   # pylint: disable=broad-except
       problems.append(f'inverse_structured_rotation_pytree on the rotation of {what} raised {type(e).__name__}: {str(e)[:100]!r}')
       fkey = fkey or ('C18/tree/inverse-raises-' + type(e).__name__ + ('-0d' if any(not sh for sh in shapes) else ''))
+    if inv is not None and rl is not None:
+      # the rotated tree is a value: still readable after decoding, and decodes again to the same leaves
+      try:
+        for i, l in enumerate(tu.tree_leaves(rot)):
+          if hasattr(rl[i], 'shape') and not np.array_equal(np.array(l, copy=True), rl[i]):
+            problems.append(f'leaf {i} of the rotated tree changed while the tree was decoded')
+            fkey = fkey or 'C18/tree/rotated-input-changed'
+        inv2 = wh.inverse_structured_rotation_pytree(rot, key, shp)
+        l1, l2 = tu.tree_leaves(inv), tu.tree_leaves(inv2)
+        if len(l1) != len(l2) or any(not np.array_equal(np.asarray(a), np.asarray(b)) for a, b in zip(l1, l2)):
+          problems.append('decoding the same rotated tree twice gives different results')
+          fkey = fkey or 'C18/tree/second-decode-differs'
+      except Exception as e:   # pylint: disable=broad-except
+        problems.append(f'after one inverse_structured_rotation_pytree the rotated {what} cannot be used again '
+                        f'(read / second decode with the same key): {type(e).__name__}: {str(e)[:100]!r}')
+        fkey = fkey or 'C18/tree/rotated-input-unusable-after-decode'
+      ctx.count('decode_twice_checks')
     if inv is not None:
       idef = tu.tree_structure(inv)
       if idef != tdef:
